@@ -8,6 +8,6 @@ CONSTANTS
   MinB = 1
   MaxB = 2
   Variant = "fixed"
-INVARIANTS Inv_C15_DoneMeansTarget Inv_C16_Backoff Inv_C16_Progress
+INVARIANTS Inv_C15_DoneMeansTarget Inv_C16_Backoff Inv_C16_Progress Inv_C16_LowWatermark
 PROPERTIES Prop_C15_StatusOnly Live_C14
 CHECK_DEADLOCK FALSE
